@@ -15,7 +15,7 @@ Proof. exact anim_lossless_roundtrip_refuted_blend. Qed.
 Print Assumptions C08_anim_lossless_roundtrip_refuted_blend.
 
 Theorem C08_blend_candidate_sound_refuted :
-  exists s d, wf_px s /\ wf_px d /\ lossless_px_ok false s d = true /\ blend_spec d s <> d.
+  exists s d, wf_px s /\ wf_px d /\ lossless_px_ok s d = true /\ blend_spec d s <> d.
 Proof. exact blend_candidate_sound_refuted. Qed.
 Print Assumptions C08_blend_candidate_sound_refuted.
 
